@@ -544,6 +544,7 @@ void vf_run(const uint8_t *data, size_t len)
     g_allow_huge_bulk = !g_want_state && (len > 4 && data[3] >= 128);   // header bit: scale run
     g_serial = 0;
     g_record_events = true;
+    memset(SP, 0xA5, sizeof SP); memset(WP, 0xA5, sizeof WP); memset(UP, 0xA5, sizeof UP);      // init must set every field itself
     for (int i = 0; i < NS_MAX; i++) { cstl_shared_ptr_init(&SP[i]); sh[i] = -1; }
     for (int i = 0; i < NW_MAX; i++) { cstl_weak_ptr_init(&WP[i]); wk[i] = -1; }
     for (int i = 0; i < NU_MAX; i++) { cstl_unique_ptr_init(&UP[i]); un[i] = -1; }
